@@ -25,6 +25,8 @@ def model_value(model, v):
         return f"{r.numerator_as_long()}/{r.denominator_as_long()}"
     if isinstance(v, SVal):
         return str(model.eval(v.t, model_completion=True))
+    if hasattr(v, "model_str"):
+        return v.model_str(model)
     if isinstance(v, Obj):
         return {"__class__": v.cls.name, **{k: model_value(model, x) for k, x in v.fields.items()}}
     if isinstance(v, (tuple, list)):
